@@ -17,7 +17,9 @@ the record is bitwise below the in-memory bitfield (`persisted_below_bitfield`),
 missing files (`persisted_weakly_sound`), hence never trusted by a restart for a piece that is not on disk
 (`crash_safe_with_mutations`).  With a verify command this is **false** in the model over arbitrary states
 (`stale_record_after_verify_while_stopping`, a `decide` witness): `forgetBitfield` does nothing when the
-in-memory bitfield is nil, and a pending verify makes it nil before the allocator finds the files missing.
+in-memory bitfield is nil, and a pending verify makes it nil before the allocator finds a file missing; the
+record is stale while the verification of the other files runs (it is repaired when that verification is done;
+since the repair of finding C04-F4 also when no file existed: `no_stale_record_when_all_files_deleted`).
 
 Not covered (said plainly): the residual window named in finding C05-F1 (a crash after the allocator
 re-created a file but before its result is handled — the model's allocator is atomic), and histories with
@@ -139,33 +141,83 @@ example : (drun (s1, none) (evsDel ++ [⟨.start, kn [1], [], []⟩])).1.persist
     (drun (s1, none) (evsDel ++ [⟨.start, kn [1], [], []⟩])).1.bf = some [false] ∧
     (drun (s1, none) (evsDel ++ [⟨.start, kn [1], [], []⟩])).1.status = .downloading := by decide
 
-/-! **Why the verify command is excluded** (`stale_record_after_verify_while_stopping`).  The download
-completes, the torrent is stopped, its file is deleted, the storage is made to fail (`failOpen`).  From here
-the state is continued with `stopHang := true` (set by hand: the driver sets `stopHang` only while the
-acceptor runs, which is not the case at the next stop — this state is *not* driver-reachable).  `start`: the
-allocation fails, `stop(err)` — the torrent is `Stopping`, still with its bitfield `[true]`, file missing.
-`verify` arrives while stopping: `Torrent.Verify()` deletes the record, `doVerify := true`, `stop` is a
-no-op.  The periodic writer stores the bitfield again (`persist`: it is not nil).  The storage recovers, the
-stop completes (`waitstop`): `handleStopped` sees `doVerify`, drops the bitfield and restarts; the allocator
-finds the file missing and re-creates it; `forgetBitfield` returns early because the bitfield is nil; nothing
-existed, so a fresh bitfield is installed and the torrent downloads.  The record still says `[true]`, every
-file exists, a restart trusts it: piece 0 would be treated as downloaded although its bytes are not on disk. -/
-private def evsA : List Ev := evsDel ++ [⟨.gate .failOpen true, kn [1], [], []⟩]
-private def midHang : St × Parked := ({ (drun (s1, none) evsA).1 with stopHang := true }, (drun (s1, none) evsA).2)
+/-! **Why the verify command is excluded** (`stale_record_after_verify_while_stopping`).  Two files, one piece
+each.  The download completes, the torrent is stopped, file 0 is deleted, the storage is made to fail
+(`failOpen`).  From here the state is continued with `stopHang := true` (set by hand: the driver sets `stopHang`
+only while the acceptor runs, which is not the case at the next stop — this state is *not* driver-reachable).
+`start`: the allocation fails, `stop(err)` — the torrent is `Stopping`, still with its bitfield `[true, true]`,
+file 0 missing.  `verify` arrives while stopping: `Torrent.Verify()` deletes the record, `doVerify := true`,
+`stop` is a no-op.  The periodic writer stores the bitfield again (`persist`: it is not nil).  The storage
+recovers, the verifier is held (`gate read`), the stop completes (`waitstop`): `handleStopped` sees `doVerify`,
+drops the bitfield and restarts; the allocator finds file 0 missing and re-creates it; `forgetBitfield` returns
+early because the bitfield is nil; file 1 existed, so the verifier is started.  **While it runs** the record
+still says `[true, true]`, every file exists, a restart (crash now) trusts it: piece 0 would be treated as
+downloaded although its bytes are not on disk.  Once the verification is done the record is the truth again
+(`stale_record_repaired_by_verification`).
+
+Since the repair of finding C04-F4 the variant in which *every* file was deleted (the witness before that
+repair: one file, no verification, fresh bitfield, `Downloading` with the stale record `[true]`) no longer
+leaves a stale record: the fresh allocation ends the pending verification with `stop`, which writes the fresh
+bitfield (`no_stale_record_when_all_files_deleted`). -/
+private def c2 : Cfg :=
+  { pl := 16384, plens := [16384, 16384], blocks := [[(0, 16384)], [(0, 16384)]], flens := [16384, 16384],
+    fpads := [false, false], fnames := ["a", "b"] }
+private def s2 : St := { cfg := c2, fileExists := [false, false], known := [false, false], bad := c2.dataSects }
+private def evsA : List Ev := [
+  ⟨.start, kn [], [], []⟩,
+  ⟨.peer 1 "10.0.0.2" true true false, kn [], [], []⟩,
+  ⟨.msg 1 .haveAll, kn [1], [], []⟩,
+  ⟨.msg 1 .unchoke, kn [1], [⟨1, 0, false, false, false⟩], []⟩,
+  ⟨.msg 1 (.piece 0 0 16384 true), kn [1], [⟨1, 1, false, false, false⟩], []⟩,
+  ⟨.msg 1 (.piece 1 0 16384 true), kn [1], [], []⟩,
+  ⟨.stop, kn [1], [], []⟩,
+  ⟨.mutate (some 0) .delete, kn [1], [], []⟩,
+  ⟨.gate .failOpen true, kn [1], [], []⟩]
+private def midHang : St × Parked := ({ (drun (s2, none) evsA).1 with stopHang := true }, (drun (s2, none) evsA).2)
 private def evsB : List Ev := [
+  ⟨.start, kn [1], [], []⟩,
+  ⟨.verify, kn [1], [], []⟩,
+  ⟨.persist, kn [1], [], []⟩,
+  ⟨.gate .failOpen false, kn [1], [], []⟩,
+  ⟨.gate .read true, kn [1], [], []⟩,
+  ⟨.waitstop, kn [1], [], []⟩]
+
+theorem stale_record_after_verify_while_stopping :
+    (drun (s2, none) evsA).1.status = .stopped ∧ (drun (s2, none) evsA).1.persisted = some [true, true] ∧
+    (drun midHang (evsB.take 1)).1.status = .stopping ∧ (drun midHang (evsB.take 1)).1.bf = some [true, true] ∧
+    (drun midHang evsB).1.status = .verifying ∧ (drun midHang evsB).1.bf = none ∧
+    (drun midHang evsB).1.fileExists = [true, true] ∧ (drun midHang evsB).1.diskOK = [false, true] ∧
+    (drun midHang evsB).1.panicked = none ∧
+    restartTrusts (drun midHang evsB).1 = some [true, true] := by decide
+
+/-- … and the verification, once it is allowed to finish, writes the truth: stopped, record = bitfield =
+`[false, true]`. -/
+theorem stale_record_repaired_by_verification :
+    (drun midHang (evsB ++ [⟨.gate .read false, kn [1], [], []⟩])).1.status = .stopped ∧
+    (drun midHang (evsB ++ [⟨.gate .read false, kn [1], [], []⟩])).1.doVerify = false ∧
+    (drun midHang (evsB ++ [⟨.gate .read false, kn [1], [], []⟩])).1.bf = some [false, true] ∧
+    restartTrusts (drun midHang (evsB ++ [⟨.gate .read false, kn [1], [], []⟩])).1 = some [false, true] := by decide
+
+/-! The witness as it was before the repair of finding C04-F4 (one file, deleted; same events): it used to end
+`Downloading` with the stale record `[true]`; now the fresh allocation ends the verification with `stop`,
+which writes the fresh bitfield. -/
+private def evsA1 : List Ev := evsDel ++ [⟨.gate .failOpen true, kn [1], [], []⟩]
+private def midHang1 : St × Parked :=
+  ({ (drun (s1, none) evsA1).1 with stopHang := true }, (drun (s1, none) evsA1).2)
+private def evsB1 : List Ev := [
   ⟨.start, kn [1], [], []⟩,
   ⟨.verify, kn [1], [], []⟩,
   ⟨.persist, kn [1], [], []⟩,
   ⟨.gate .failOpen false, kn [1], [], []⟩,
   ⟨.waitstop, kn [1], [], []⟩]
 
-theorem stale_record_after_verify_while_stopping :
-    (drun (s1, none) evsA).1.status = .stopped ∧
-    (drun midHang (evsB.take 1)).1.status = .stopping ∧ (drun midHang (evsB.take 1)).1.bf = some [true] ∧
-    (drun midHang evsB).1.status = .downloading ∧ (drun midHang evsB).1.bf = some [false] ∧
-    (drun midHang evsB).1.fileExists = [true] ∧ (drun midHang evsB).1.diskOK = [false] ∧
-    (drun midHang evsB).1.panicked = none ∧
-    restartTrusts (drun midHang evsB).1 = some [true] := by decide
+theorem no_stale_record_when_all_files_deleted :
+    (drun midHang1 (evsB1.take 3)).1.status = .stopping ∧ (drun midHang1 (evsB1.take 3)).1.doVerify = true ∧
+    (drun midHang1 (evsB1.take 3)).1.persisted = some [true] ∧ (drun midHang1 (evsB1.take 3)).1.fileExists = [false] ∧
+    (drun midHang1 evsB1).1.status = .stopped ∧ (drun midHang1 evsB1).1.doVerify = false ∧
+    (drun midHang1 evsB1).1.bf = some [false] ∧ (drun midHang1 evsB1).1.fileExists = [true] ∧
+    (drun midHang1 evsB1).1.diskOK = [false] ∧ (drun midHang1 evsB1).1.panicked = none ∧
+    restartTrusts (drun midHang1 evsB1).1 = some [false] := by decide
 end Example
 
 end Rain.Props.C05
